@@ -181,6 +181,9 @@ structure Cfg where
   fixSnap : Bool
   /-- `onReorg`, when it re-opens the previous window, deletes that window's persisted copy. -/
   fixPersist : Bool
+  /-- `RunningEventFilter.ensureInit` does not remember a failed initialisation: the next access
+  runs the initialiser again (c8ac4a7). -/
+  fixInit : Bool
   deriving DecidableEq, Repr
 
 inductive Err where
@@ -215,17 +218,25 @@ structure Node where
   /-- database: the lowest block whose header is still there (`PruneBlockDataUpto` keeps the
   headers of the `BlockHashLag` blocks below the floor). -/
   hfloor : Nat
-  /-- memory: the sticky error of a failed lazy initialisation (`RunningEventFilter.initErr`):
-  every access of the running filter returns it until `Reset` (after a failed Store / RevertHead)
-  or a restart re-arms the initialiser. -/
+  /-- memory: the filter is not initialised and the last attempt failed with this error
+  (`RunningEventFilter` without `initDone`). Before c8ac4a7 the error was sticky (`initErr`): every
+  access returned it until `Reset` (after a failed Store / RevertHead) or a restart; since then every
+  access runs the initialiser again (`wake`). -/
   initErr : Option Err
+  /-- process: started without `--prune-mode`: `blockchain.New` wires
+  `core.InitializeRunningEventFilter`, the initialiser that does not know the retention floor. -/
+  coreInit : Bool
   deriving DecidableEq, Repr
 
-def Node.init : Node := ⟨[], [], none, Agg.fresh 0, 0, [], 0, 0, none⟩
+def Node.init : Node := ⟨[], [], none, Agg.fresh 0, 0, [], 0, 0, none, false⟩
 
 /-- `pruner.OldestRetainedBlock` as the initialiser reads it: the first block that still has its
 commitments; not-found (read as 0) when the head is below the floor. -/
-def effFloor (n : Node) : Nat := if n.floor < n.chain.length then n.floor else 0
+def dbFloor (n : Node) : Nat := if n.floor < n.chain.length then n.floor else 0
+
+/-- The floor as the wired initialiser sees it: `pruner.InitializeRunningEventFilter` reads it from
+the database, `core.InitializeRunningEventFilter` is the same code with floor 0. -/
+def effFloor (n : Node) : Nat := if n.coreInit then 0 else dbFloor n
 
 /-- `RunningEventFilter.insert`: returns the new `(inner, next, persisted windows)`. -/
 def insertRun (W : Nat) (r : Agg) (p : WinMap) (bloom : List Item) (b : Nat) : Except Err (Agg × Nat × WinMap) :=
@@ -306,15 +317,12 @@ def restart (cfg : Cfg) (n : Node) : Node × Option Err :=
   | .error e => ({ n with cache := [], initErr := some e }, some e)
   | .ok (r, nx, p) => ({ n with running := r, next := nx, persisted := p, cache := [], initErr := none }, none)
 
-/-- Restart WITHOUT `--prune-mode` on a database that was pruned before (e.g. an RPC-only node with
-`--disable-sync`, which excludes `--prune-mode`): `blockchain.New` then wires
-`core.InitializeRunningEventFilter`, the initialiser that does not know the retention floor (the
-floor-aware one with floor 0); the floor itself stays in the database. Not an `Op`: the histories
-of the theorems restart with the initialiser of a pruning node; this function is the finding
+/-- Restart WITHOUT `--prune-mode` on a database that may have been pruned before (e.g. an RPC-only
+node with `--disable-sync`, which excludes `--prune-mode`): `blockchain.New` then wires
+`core.InitializeRunningEventFilter`. Not an `Op`: the histories of the theorems run a node with the
+floor-aware initialiser (`DBInv.nocore`); this function is the finding
 `query_fails_on_pruned_database_without_prune_mode`. -/
-def restartCore (cfg : Cfg) (n : Node) : Node × Option Err :=
-  let r := restart cfg { n with floor := 0 }
-  ({ r.1 with floor := n.floor }, r.2)
+def restartCore (cfg : Cfg) (n : Node) : Node × Option Err := restart cfg { n with coreInit := true }
 
 /-- `RunningEventFilter.Reset` after a failed `Store` / `RevertHead` (statebackend
 `resetFilterOnError`, 3373c0b): the in-memory filter and a remembered initialisation error are
@@ -323,6 +331,14 @@ def reinit (cfg : Cfg) (n : Node) : Node :=
   match initRunning cfg n with
   | .error e => { n with initErr := some e }
   | .ok (r, nx, p) => { n with running := r, next := nx, persisted := p, initErr := none }
+
+/-- `RunningEventFilter.ensureInit` at the start of every access (insert, onReorg, Write, the
+accessors a query uses): a filter that is not initialised runs the initialiser. Before c8ac4a7 a
+failed attempt was final (`fixInit = false`: nothing happens here). -/
+def wake (cfg : Cfg) (n : Node) : Node :=
+  match n.initErr with
+  | none => n
+  | some _ => if cfg.fixInit then reinit cfg n else n
 
 /-- `Store` (the part that concerns the index): everything is in one batch, so an error leaves
 the database unchanged (and resets the in-memory filter). The block's number is the chain length
@@ -506,11 +522,22 @@ def query (cfg : Cfg) (n : Node) (f : Filter) (fromB toB : Nat) (tok : Option To
   let r := events cfg n f fromB toB tok chunk limit
   ({ n with cache := r.2 }, r.1)
 
+/-- `EventFilter.Events` as the node's API: the running filter is brought up on demand (`wake`),
+then the page is computed (`query`, the page on a node whose initialisation state is settled). -/
+def apiEvents (cfg : Cfg) (n : Node) (f : Filter) (fromB toB : Nat) (tok : Option Token) (chunk limit : Nat) :
+    Node × PageRes :=
+  query cfg (wake cfg n) f fromB toB tok chunk limit
+
+/-- `Blockchain.Store` / `RevertHead` / `WriteRunningEventFilter` as the node's API. -/
+def apiStore (cfg : Cfg) (n : Node) (blk : Block) : Node × Option Err := store cfg (wake cfg n) blk
+def apiRevert (cfg : Cfg) (n : Node) : Node × Option Err := revert cfg (wake cfg n)
+def apiSnap (cfg : Cfg) (n : Node) : Node × Option Err := snap (wake cfg n)
+
 /-- Follow continuation tokens until the empty token; `none` if a page fails or the fuel runs out. -/
 def collect (cfg : Cfg) (f : Filter) (fromB toB chunk limit : Nat) : Nat → Node → Option Token → Option (List Emitted)
   | 0, _, _ => none
   | fuel + 1, n, tok =>
-    match query cfg n f fromB toB tok chunk limit with
+    match apiEvents cfg n f fromB toB tok chunk limit with
     | (_, .err _) => none
     | (n', .ok evs t) =>
       if t.isEmpty then some evs
@@ -571,11 +598,15 @@ def queryPre (cfg : Cfg) (n : Node) (f : Filter) (fromB toB : Nat) (tok : Option
   let r := eventsPre cfg n f fromB toB tok chunk limit base pre
   ({ n with cache := r.2 }, r.1)
 
+def apiEventsPre (cfg : Cfg) (n : Node) (f : Filter) (fromB toB : Nat) (tok : Option Token) (chunk limit : Nat)
+    (base : Nat) (pre : List Block) : Node × PageRes :=
+  queryPre cfg (wake cfg n) f fromB toB tok chunk limit base pre
+
 def collectPre (cfg : Cfg) (f : Filter) (fromB toB chunk limit base : Nat) (pre : List Block) :
     Nat → Node → Option Token → Option (List Emitted)
   | 0, _, _ => none
   | fuel + 1, n, tok =>
-    match queryPre cfg n f fromB toB tok chunk limit base pre with
+    match apiEventsPre cfg n f fromB toB tok chunk limit base pre with
     | (_, .err _) => none
     | (n', .ok evs t) =>
       if t.isEmpty then some evs
@@ -601,11 +632,11 @@ inductive Op where
   deriving Repr
 
 def step (cfg : Cfg) (n : Node) : Op → Node
-  | .store blk => (store cfg n blk).1
-  | .revert => (revert cfg n).1
-  | .snap => (snap n).1
+  | .store blk => (apiStore cfg n blk).1
+  | .revert => (apiRevert cfg n).1
+  | .snap => (apiSnap cfg n).1
   | .restart => (restart cfg n).1
-  | .query f a b t c l => (query cfg n f a b t c l).1
+  | .query f a b t c l => (apiEvents cfg n f a b t c l).1
   | .prune k => prune cfg n k
   | .storeFail _ => reinit cfg n
   | .revertFail => reinit cfg n
